@@ -278,3 +278,19 @@ func init() {
 		runClosedFieldRule(c, "X.closed", nil, 1)
 	}})
 }
+
+func init() {
+	register(&Property{ID: "X-readreset", NeedSSA: true, Decided: "dump", NotDecided: "-", Run: func(c *Ctx) {
+		ci := newChainIndex(c.P)
+		for _, s := range []resetSpec{
+			{Type: "rowGroupRows", Reset: []string{"(*rowGroupRows).Reset"}},
+			{Type: "columnChunkValueReader", Reset: []string{"(*columnChunkValueReader).Reset"}},
+			{Type: "reader", Reset: []string{"(*reader).Reset"}},
+			{Type: "Reader", Reset: []string{"(*Reader).Reset"}},
+			{Type: "GenericReader", Reset: []string{"(*GenericReader).Reset"}},
+			{Type: "RowBuilder", Reset: []string{"(*RowBuilder).Reset"}},
+		} {
+			runResetRule(c, "X.readreset", ci, s)
+		}
+	}})
+}
